@@ -171,4 +171,4 @@ prop('C20', [M.rule_a11_offset, M.rule_a11_trim, Z.rule_trim_start, M.rule_a11_p
      'Time text: offset sign taken from a signed quantity, hour/minute fields within range and width (interval '
      'analysis), canonical trim removes only trailing zeros, canonical refusals present, time encoders registered in '
      'CER and DER.  Calendar arithmetic and the fraction convention (symmetric between writer and reader) are not decided.',
-     {'A11.sign': 2, 'A11.width': 3, 'A11.trim': 1, 'A11.canon': 8, 'A5.memo': 1, 'A11.frac': 3, 'A11.div': 3, 'A11.len': 3})
+     {'A11.sign': 1, 'A11.width': 3, 'A11.trim': 1, 'A11.canon': 8, 'A5.memo': 1, 'A11.frac': 3, 'A11.div': 3, 'A11.len': 3})
